@@ -77,7 +77,7 @@ impl Prop for C02 {
             0 => (gen::programs::program(t), "G1s"),
             1 => {
                 let p = gen::programs::program(t);
-                (gen::mutate::mutate(t, &p, env.corpus), "G1s+G2")
+                (gen::mutate::layout_only(t, &p, env.corpus), "G1s+G2(layout)")
             }
             2 => {
                 let c = env.corpus;
